@@ -273,6 +273,8 @@ FIT_KINDS = {
     'concat': ('={src}&""', lambda v: _text(v)),
     'abs': ('=ABS({src})', lambda v: abs(v)),
     'plus-scalar': ('={src}+$J$9', lambda v: v + 100),
+    # the result is a reference (an array like any other once it is shown in cells)
+    'reference': ('=OFFSET(A1,0,0,{rh},{rw})', lambda v: v),
 }
 
 
@@ -291,7 +293,7 @@ def one_fit(ctx, rh, rw, th, tw, kind, fill, offset, iterative=False):
             cells[wb.coord(1 + j, 1 + i)] = src_vals[i][j]
     src = f'A1:{wb.coord(rw, rh)}' if (rh, rw) != (1, 1) else 'A1'
     target = f'A10:{wb.coord(tw, 9 + th)}' if (th, tw) != (1, 1) else 'A10'
-    formula = template.format(src=src)
+    formula = template.format(src=src, rh=rh, rw=rw)
     spec = {'sheets': [['Sheet1', cells]], 'names': {}, 'arrays': [['Sheet1', target, formula]],
             'calc': {'iterate': True, 'count': 20, 'delta': 0.001} if iterative else None}
     case = {'kind': 'fit', 'rh': rh, 'rw': rw, 'th': th, 'tw': tw, 'fkind': kind, 'fill': fill, 'offset': offset,
@@ -361,6 +363,10 @@ def one_fit(ctx, rh, rw, th, tw, kind, fill, offset, iterative=False):
         return True
 
     if not check(src_vals, 'first evaluation'):
+        return
+    if kind == 'reference':
+        # cells reached only through a computed reference are not precedents in pycel's graph, a write to them
+        # is not followed (outside of this property)
         return
     # change one source cell
     new = [list(r) for r in src_vals]
